@@ -1026,16 +1026,14 @@ func isDataAttribute(val string) bool {
 	if !dataAttribute.MatchString(val) {
 		return false
 	}
-	rest := strings.Split(val, "data-")
-	if len(rest) == 1 {
-		return false
-	}
+	// everything after the leading "data-" is the name to check
+	rest := strings.TrimPrefix(val, "data-")
 	// data-xml* is invalid.
-	if dataAttributeXMLPrefix.MatchString(rest[1]) {
+	if dataAttributeXMLPrefix.MatchString(rest) {
 		return false
 	}
 	// no uppercase or semi-colons allowed.
-	if dataAttributeInvalidChars.MatchString(rest[1]) {
+	if dataAttributeInvalidChars.MatchString(rest) {
 		return false
 	}
 	return true
